@@ -2793,10 +2793,18 @@ class Partitions(Expr):
             # BlockwiseHead decides itself how many partitions it outputs
             (BlockwiseIO, Fused, SetIndexBlockwise, BlockwiseHead),
         ):
+            # With a single input partition every operand has one partition; the
+            # lower-dimensional ones are no broadcasts then and are selected as well,
+            # otherwise they no longer are the same expressions as inside the frame
+            single = self.frame.npartitions == 1
             operands = [
                 (
                     Partitions(op, self.partitions)
-                    if (isinstance(op, Expr) and not self.frame._broadcast_dep(op))
+                    if isinstance(op, Expr)
+                    and (
+                        not self.frame._broadcast_dep(op)
+                        or (single and op.npartitions == 1 and op.ndim >= 1)
+                    )
                     else op
                 )
                 for op in self.frame.operands
